@@ -12,21 +12,37 @@
 (* handler (drops only a *running* search's memory) as counterexample guard*)
 (***************************************************************************)
 EXTENDS Naturals, Sequences, FiniteSets, TLC
-CONSTANTS Positions,     \* abstract positions, e.g. {"book","open","open2","term"}
-          MaxCmds,
-          PinnedNewGame  \* TRUE: model the pinned handler (drops only a running search's artifact)
+CONSTANTS
+  \* @type: Set(Str);
+  Positions,     \* abstract positions, e.g. {"book","open","open2","term"}
+  \* @type: Int;
+  MaxCmds,
+  \* @type: Bool;
+  PinnedNewGame  \* TRUE: model the pinned handler (drops only a running search's artifact)
 NoArt == [has |-> FALSE, hist |-> {}]
 NoSearch == [root |-> "-", st |-> "none", art |-> NoArt]
 Kind(p) == IF p = "book" THEN "book" ELSE IF p = "term" THEN "term" ELSE "open"
 
-VARIABLES pos,        \* current position
-          search,     \* "none" | [root, st: "run"|"fin", art: set of roots in its history]
-          artifact,   \* "none" | set of position ids (history of searched roots)
-          owed,       \* number of go-commands on open positions whose bestmove is still due
-          extra,      \* ghost: a bestmove was printed that no go was waiting for
-          stale,      \* ghost: a search started after ucinewgame with a non-empty memory
-          fresh,      \* ghost: TRUE from ucinewgame until the next search starts
-          n, alive
+\* (the @type comments are for Apalache, which proves the invariants inductive - UciInd.tla; TLC ignores them)
+VARIABLES
+  \* @type: Str;
+  pos,        \* current position
+  \* @type: { root: Str, st: Str, art: { has: Bool, hist: Set(Str) } };
+  search,     \* "none" | [root, st: "run"|"fin", art: set of roots in its history]
+  \* @type: { has: Bool, hist: Set(Str) };
+  artifact,   \* "none" | set of position ids (history of searched roots)
+  \* @type: Int;
+  owed,       \* number of go-commands on open positions whose bestmove is still due
+  \* @type: Bool;
+  extra,      \* ghost: a bestmove was printed that no go was waiting for
+  \* @type: Bool;
+  stale,      \* ghost: a search started after ucinewgame with a non-empty memory
+  \* @type: Bool;
+  fresh,      \* ghost: TRUE from ucinewgame until the next search starts
+  \* @type: Int;
+  n,
+  \* @type: Bool;
+  alive
 vars == <<pos, search, artifact, owed, extra, stale, fresh, n, alive>>
 
 PrintBest == IF owed > 0 THEN owed' = owed - 1 /\ extra' = extra ELSE owed' = owed /\ extra' = TRUE
